@@ -466,6 +466,7 @@ fn local_send<R: role::RoleType>(
         let sn = run.conn.as_ref().unwrap().verif_state();
         let used = !sn.pid_free.iter().any(|(l, h)| *l <= id && id <= *h);
         let open = sn.pid_pubcomp.contains(&id) || sn.pid_puback.contains(&id) || sn.pid_pubrec.contains(&id)
+            || sn.pid_suback.contains(&id) || sn.pid_unsuback.contains(&id) || g.held.contains(&id)
             || run.conn.as_ref().unwrap().get_stored_packets().iter().any(|p| p.packet_id() as u64 == id);
         if used && !open {
             if let Some(p) = mk_ack(rng, wv, 6, id) {
